@@ -177,7 +177,7 @@ CONC = Stage(
                      ("Conc.tla", "MC_Conc_neg_lazy.cfg", "fail")]},
     parts={"quick": [("", 2)], "thorough": [("", 4)]},
     trace=("Trace_Conc.tla", "Trace_Conc.cfg"),
-    nontrivial=lambda e: e.get("ev") in ("Par", "End"),
+    nontrivial=lambda e: e.get("ev") in ("Par", "End", "Pool"),
     race=True,
     driver_env="RACELOG",
 )
@@ -202,19 +202,29 @@ HELPERS = Stage(
 CHECKS = {
     "C13": dict(
         stages=[CONC],
-        technique="TLA+ model of pooled buffers under interleaved goroutines (Conc.tla): TLC exhaustive over all interleavings "
-                  "+ TLC validation of recorded parallel executions (race-detector build) against their sequential results",
-        level_text="TLC explores every interleaving of 2 (thorough 3) goroutines x 3 operations, each Get / write / copy-out / "
-                   "Put on a shared pool: every operation returns what it returns alone and no pooled buffer is held twice; "
-                   "releasing the buffer before the copy-out is the negative configuration.  Generated programs (encode, decode + "
-                   "input scribble, String, CMPP/SMPP splitting, batch Build, UCS-2 pooled helper, GSM-7 functions) are first "
-                   "run alone, then on 2..8 (thorough 64) goroutines with GOMAXPROCS 1..16 and seeded yields in a -race binary; "
-                   "TLC requires every parallel result to equal its sequential result and zero race-detector reports",
+        technique="TLA+ model of the library's shared state under interleaved goroutines (Conc.tla: buffer pool with sync.Pool "
+                  "Get, error path, first-use table initialisation): TLC exhaustive over all interleavings + TLC validation of "
+                  "recorded parallel executions (race-detector build): the pool events reported by a hook in packet.Writer are "
+                  "stepped through Conc's own actions, every parallel result must equal its sequential result",
+        level_text="TLC explores every interleaving of 2 (thorough 3) goroutines x 3 operations, each Get / Lookup / (Build) / "
+                   "Write / Copy / Put or Fail on a shared pool: every operation returns what it returns alone, no pooled "
+                   "buffer is held twice or is in the pool while held, pooled buffers are empty, nobody reads a half-built "
+                   "table; negative configurations: release before the copy-out, error path without reset (one goroutine), "
+                   "unsynchronised lazy initialisation.  Generated programs (encode, decode + input scribble, String, CMPP/SMPP "
+                   "splitting, batch Build with origin coding, UCS-2 pooled helper, GSM-7 functions, failing encodes, large "
+                   "encodes, authenticators, message ids / receipts / validity periods) run alone and on 2..8 (thorough 64) "
+                   "goroutines with GOMAXPROCS 1..16 and seeded yields in a -race binary; every third program runs in a process "
+                   "of its own with the goroutines FIRST (first use is concurrent) and the reference afterwards.  TLC steps "
+                   "Conc's actions for every recorded pool event (get / copy / put with Writer, buffer, length) - a line that is "
+                   "not an enabled step, or a logged length that contradicts the model's buffer content, is a violation - and "
+                   "requires every parallel result to equal its sequential result, zero race-detector reports, no dead child",
         level_note="real schedules are sampled, not controlled; the data-race sensor is Go's race detector (reports read from its "
-                   "log files); this is the property where the specification contributes least beyond the pool model and the "
-                   "organisation of the evidence",
-        rule="program = Seq events + Par events (one per call) + End (race report count); distinct = distinct Par/End events",
-        assumptions=["Go race detector", "operations are deterministic functions of (kind, seed); results compared by length+FNV-64 digest"],
+                   "log files); pool events are followed for the first 300 Writers of a program",
+        rule="program = Pool events (one per pool operation of packet.Writer) + Seq + Par events (one per call) + End (race "
+             "report count, child died); distinct = distinct Pool/Par/End events",
+        assumptions=["Go race detector", "operations are deterministic functions of (kind, seed); results compared by length+FNV-64 digest",
+                     "the hook reports get after the buffer was taken and put before it goes back, ordered by a sequence number "
+                     "taken under a lock: the recorded order is a possible order of the pool operations"],
     ),
     "C12": dict(
         stages=[MEM],
